@@ -482,6 +482,10 @@ func TestC01(t *testing.T) {
 	r.Assume("the upgrade probe reaches the server after it has finished accepting the candidate connection (1 ms of virtual latency); the opposite order is C08's subject")
 	r.Assume("a conformant JSONP client of revision 3 requests base64 (b64=1), as the reference client does")
 	r.Assume("bounded restatement of 'eventually': all messages must have arrived 600 ms (virtual) after the last Send returned, with the client polling continuously")
+	if r.Lane == 1%r.Lanes {
+		// whole sessions over real QUIC (OnWebTransportSession, real session object)
+		quicMessages(r, 1, r.N(24, 960))
+	}
 	n := r.N(700, 40000)
 	for i := 0; i < n; i++ {
 		if !r.Only(i) {
